@@ -15,6 +15,7 @@ class RGTrace:
         self.possible_keys = None
         self.rounds = 0
         self.leftover = 0
+        self.instrumented = True
 
 
 def possible_keys_of(e, blk):
@@ -28,8 +29,26 @@ def run_randomgen(w, blk, n, acceptable_error=0, tr=None):
     Returns (result, exc, RGTrace)."""
     import sweetpea as sp
     tr = tr if tr is not None else RGTrace()
-    E = M_random.UCSolutionEnumerator
+    E = getattr(M_random, "UCSolutionEnumerator", None)
     RG = M_random.RandomGen
+    # The per-attempt instrumentation reaches for private names.  When one of them is not there (a refactoring of the
+    # library), the call still runs - un-instrumented - and the caller decides what it can still judge (tr.instrumented).
+    names_ok = (E is not None and all(hasattr(E, n) for n in ("generate_random_samples", "random_components", "extract_sequence_key"))
+                and "_RandomGen__are_constraints_violated" in RG.__dict__ and "sample" in RG.__dict__)
+    tr.instrumented = names_ok
+    if not names_ok:
+        w.count("rg.uninstrumented")
+        try:
+            res = sp.synthesize_trials(blk, n, sp.RandomGen)
+            w.log.append(("op", "RandomGen", n, len(res), W._sha1(repr(res))))
+            return res, None, tr
+        except W.HarnessCap:
+            raise
+        except BaseException as e:   # noqa
+            if isinstance(e, (KeyboardInterrupt, SystemExit)) or type(e).__name__ in ("CaseTimeout", "InnerTimeout"):
+                raise
+            w.log.append(("op", "RandomGen", n, "raise", type(e).__name__))
+            return None, e, tr
     orig_grs = E.generate_random_samples
     orig_rc = E.random_components
     orig_viol = RG.__dict__["_RandomGen__are_constraints_violated"]
@@ -97,10 +116,15 @@ def run_randomgen(w, blk, n, acceptable_error=0, tr=None):
         setattr(RG, "_RandomGen__are_constraints_violated", orig_viol)
         RG.sample = orig_sample
     if tr.enumerator is not None:
-        e = tr.enumerator
-        T = blk.trials_per_sample()
-        rounds = (T - e._preamble_size) // e.crossing_size
-        tr.possible_keys = e.preamble_solution_count() * pow(e.solution_count(), rounds) * e.leftover_solution_count()
-        tr.rounds = rounds
-        tr.leftover = (T - e._preamble_size) % e.crossing_size
+        try:
+            e = tr.enumerator
+            T = blk.trials_per_sample()
+            rounds = (T - e._preamble_size) // e.crossing_size
+            tr.possible_keys = e.preamble_solution_count() * pow(e.solution_count(), rounds) * e.leftover_solution_count()
+            tr.rounds = rounds
+            tr.leftover = (T - e._preamble_size) % e.crossing_size
+        except AttributeError:
+            tr.possible_keys = None
+            tr.instrumented = False
+            w.count("rg.uninstrumented")
     return res, exc, tr
